@@ -16,6 +16,12 @@
 //! selected; ASC/DESC each) x one *window* (LIMIT in {none,0,1,2,m,m+1} x OFFSET in
 //! {none,1,m}, m = size of the un-windowed result; 2-key shapes use a 6-window subset).
 //!
+//! Two passes (queries are independent, but one defect must not hide the rest nor eat the
+//! budget): the FULL pass runs the whole query space on the enumerated tables of <= 2 (quick) /
+//! <= 4 (thorough) rows and on the fixed 8-row tables; the DEEP pass runs the larger tables
+//! (3..4 rows quick, 5..6 rows thorough) with exactly the constructs listed as open findings in
+//! findings.d/C15.json left out (`known_broken`, counted as pruned per finding).
+//!
 //! Oracle: `QueryResult::accepts_loose(observed)` — observed must be `R[offset..offset+limit]`
 //! for SOME ordering R of the model's bag that is sorted under the keys with NULL first
 //! ascending / last descending; ties in any order, tie-cutting windows may pick any tied row,
@@ -741,12 +747,12 @@ impl Check for C15 {
         let mut s = Spec::new(
             PROP,
             "exploration",
-            "a case is one query on one table.  Tables: every multiset of <=4 (quick) / <=6 (thorough) rows over {NULL,1,2}x{NULL,'a','b'} in a scrambled insertion order, as t(a,c) and as t(id PK,a,c), plus five fixed 8-row tables with duplicates (x2 variants).  Queries: 16 bases (SELECT * / a,c WHERE <true> / a,c / c with a hidden key; DISTINCT a | c | a,c; GROUP BY a | a,c with COUNT(*) [+DISTINCT]; INNER/LEFT JOIN with a fixed 4-row table [+DISTINCT]; UNION [ALL] with a fixed 4-row table) x order shapes (none; 1 key; 2 keys on different columns; key = column | a+1 | ordinal | COUNT(*) | unselected column; ASC/DESC each) x windows (LIMIT {none,0,1,2,m,m+1} x OFFSET {none,1,m} for <=1 key, 6 windows for 2 keys; m = un-windowed result size).  SQL text and expected answer come from the same refmodel Query value; verdict = QueryResult::accepts_loose.  Distinct = distinct (table, SQL text) by construction; non-trivial = result has >= 2 rows and the query has ORDER BY, LIMIT/OFFSET or DISTINCT.",
+            "a case is one query on one table.  Tables: every multiset of <=4 (quick) / <=6 (thorough) rows over {NULL,1,2}x{NULL,'a','b'} in a scrambled insertion order, as t(a,c) and as t(id PK,a,c), plus five fixed 8-row tables with duplicates (x2 variants).  Queries: 16 bases (SELECT * / a,c WHERE <true> / a,c / c with a hidden key; DISTINCT a | c | a,c; GROUP BY a | a,c with COUNT(*) [+DISTINCT]; INNER/LEFT JOIN with a fixed 4-row table [+DISTINCT]; UNION [ALL] with a fixed 4-row table) x order shapes (none; 1 key; 2 keys on different columns; key = column | a+1 | ordinal | COUNT(*) | unselected column; ASC/DESC each) x windows (LIMIT {none,0,1,2,m,m+1} x OFFSET {none,1,m} for <=1 key, 6 windows for 2 keys; m = un-windowed result size).  Full pass (whole query space): enumerated tables of <=2 (quick) / <=4 (thorough) rows + the fixed tables; deep pass: the larger tables with the constructs of the open findings KF-C15-01..11 left out (counted as pruned).  SQL text and expected answer come from the same refmodel Query value; verdict = QueryResult::accepts_loose.  Distinct = distinct (table, SQL text) by construction; non-trivial = result has >= 2 rows and the query has ORDER BY, LIMIT/OFFSET or DISTINCT.",
         );
         s.assumptions = &[
             "oracle = refmodel::sql (cross-checked against SQLite): NULL first ascending / last descending, ties in any order, a window cutting a tie may return any tied row, LIMIT without ORDER BY any sub-bag of the right size",
             "every database is fresh; a failure observed after a panic on the same handle is re-checked on a fresh database before it is reported",
-            "EXPLAIN plan-operator counters are sampled (every 16th table + the fixed tables)",
+            "EXPLAIN plan-operator counters are sampled (every 16th table + the fixed tables); work is split by table (one fresh database per table), the fixed tables by (table, base)",
             "sub-projections without ORDER BY/DISTINCT carry the unfoldable tautology WHERE a IS NULL OR a IS NOT NULL (the projection-without-WHERE defect belongs to C11/C14/C19)",
         ];
         s.cap_quick_s = 100;
@@ -791,10 +797,17 @@ impl Check for C15 {
             if !mine.is_empty() {
                 let explain = spec.fixed || (ti / 2) % 16 == 3;
                 let deep = !spec.fixed && spec.rows.len() > kfull;
+                let first = mine[0].name == "plain-star";
                 run_table(ctx, rep, spec, ti, &mine, explain, deep);
-                rep.count("tables_touched", 1);
-                if spec.rows.iter().all(|(a, c)| a.is_some() && c.is_some()) {
-                    rep.count("tables_touched_null_free", 1);
+                if first {
+                    // (a fixed table is shared by several workers: count it once)
+                    rep.count("tables", 1);
+                    if spec.rows.iter().all(|(a, c)| a.is_some() && c.is_some()) {
+                        rep.count("tables_null_free", 1);
+                    }
+                    if deep {
+                        rep.count("tables_deep_pass", 1);
+                    }
                 }
             }
             if ctx.expired() {
